@@ -127,6 +127,16 @@ func WorkerMain(id string, tier Tier, raceBuild bool, out string, onlyCase strin
 	c := &Ctx{Res: res, Tier: tier, RaceBuild: raceBuild, OnlyCase: onlyCase, WorkDir: work}
 	StartStallMonitor()
 	p.Run(c)
+	if Serial() {
+		res.Count("asynchronous_tree_drivers_run_one_at_a_time", 1)
+	}
+	if n := SnapshotsTaken.Load(); n > 0 {
+		res.Count("quiescence_goroutine_snapshots", n)
+		res.Count("quiescence_snapshots_with_goroutines_of_the_code_under_test", ForeignSeen.Load())
+		if g := SettleGaveUp.Load(); g > 0 {
+			res.Count("quiescence_waits_given_up", g)
+		}
+	}
 	if n := StallCount(); n > 0 {
 		res.Count("process_stalls_over_1500ms_observed", int64(n))
 	}
@@ -228,6 +238,12 @@ func accessFrames(block string) []string {
 	return out
 }
 
+// serialRerun is set once a worker asked for a serial run; later workers of this supervisor start that way.
+var serialRerun bool
+
+// SerialReruns counts workers run again in serial mode.
+var SerialReruns int
+
 func runWorker(bin string, id string, tier Tier, race bool, timeout time.Duration, onlyCase string) (exp *Export, crashed bool, timedOut bool, logPath string, raceLogPrefix string, err error) {
 	dir := filepath.Join(RunDir, id)
 	_ = os.MkdirAll(dir, 0o755)
@@ -258,6 +274,9 @@ func runWorker(bin string, id string, tier Tier, race bool, timeout time.Duratio
 	cmd.Stdout = logf
 	cmd.Stderr = logf
 	cmd.Env = append(os.Environ(), "GOTRACEBACK=all")
+	if serialRerun {
+		cmd.Env = append(cmd.Env, "VERIF_SERIAL=1")
+	}
 	if race {
 		cmd.Env = append(cmd.Env, "GORACE=halt_on_error=0 log_path="+raceLogPrefix)
 	}
@@ -281,6 +300,14 @@ func runWorker(bin string, id string, tier Tier, race bool, timeout time.Duratio
 		}
 	}
 	data, rerr := os.ReadFile(out)
+	if ee, ok := werr.(*exec.ExitError); ok && rerr != nil && !timedOut && !serialRerun && ee.ExitCode() == SerialRerunExit {
+		// the worker found the tree under test working asynchronously and asks for one driver at a time
+		logf.Close()
+		_ = os.Rename(logPath, logPath+".parallel")
+		serialRerun = true
+		SerialReruns++
+		return runWorker(bin, id, tier, race, timeout, onlyCase)
+	}
 	if rerr != nil {
 		// No result: the worker died.
 		if timedOut {
